@@ -47,8 +47,96 @@ def ints(v):
     return out
 
 
+def as_form(v, form):
+    """the same three (or two) integers as a tuple, a list or a one-shot iterable"""
+    v = list(v)
+    if form == "tuple":
+        return tuple(v)
+    if form == "list":
+        return v
+    if form == "gen":
+        return (c for c in v)
+    if form == "map":
+        return map(int, v)
+    if form == "iter":
+        return iter(v)
+    raise RuntimeError("unknown form " + form)
+
+
+KEEP = []          # results handed to "callers" stay alive (and stay mutated) for the rest of the process
+
+
+def run_op(op, gens):
+    """one call of a history; state of earlier calls (suspended generators, mutated results) persists"""
+    import itertools
+    k = op["op"]
+    if k == "hex_open":
+        gens[op["id"]] = geometry.concentric_hexagons(op["radius"], tuple(op["start"]))
+        return ["ok", None]
+    if k == "hex_next":
+        return ["ok", [ints(xy) for xy in itertools.islice(gens[op["id"]], op["n"])]]
+    if k == "hex_drop":
+        g = gens.pop(op["id"])
+        if op.get("close"):
+            g.close()
+        del g
+        return ["ok", None]
+    if k == "hex_full":
+        return ["ok", [ints(xy) for xy in geometry.concentric_hexagons(op["radius"], tuple(op["start"]))]]
+    if k == "ldf":
+        rnd = Scripted(op["ks"])
+        route_utils.random = rnd
+        out = route_utils.longest_dimension_first(as_form(op["v"], op.get("form", "tuple")),
+                                                  as_form(op["start"], op.get("sform", "tuple")),
+                                                  op["width"], op["height"])
+        res = []
+        for direction, xy in out:
+            if not isinstance(direction, Links):
+                raise TypeError("direction %r is not a Links member" % (direction,))
+            res.append([int(direction), ints(xy)])
+        # the caller owns the returned list and now modifies it in place
+        then = op.get("then")
+        if then == "append":
+            out.append((Links.north, (77, 77)))
+        elif then == "extend":
+            out.extend([(Links.west, (3, 2)), (Links.south, (3, 1))])
+        elif then == "clear":
+            del out[:]
+        elif then == "reverse":
+            out.reverse()
+        elif then == "pop" and out:
+            out.pop()
+        KEEP.append(out)
+        return ["ok", dict(out=res, nrandom=rnd.nrandom)]
+    if k == "mesh_path":
+        return ["ok", ints(geometry.shortest_mesh_path(as_form(op["s"], op.get("form", "tuple")),
+                                                       as_form(op["d"], op.get("dform", "tuple"))))]
+    if k == "minimise":
+        return ["ok", ints(geometry.minimise_xyz(as_form(op["v"], op.get("form", "tuple"))))]
+    if k == "torus_path":
+        rnd = Scripted(op["ks"], op["t"])
+        geometry.random = rnd
+        v = geometry.shortest_torus_path(as_form(op["s"], op.get("form", "tuple")),
+                                         as_form(op["d"], op.get("dform", "tuple")), op["w"], op["h"])
+        return ["ok", dict(v=ints(v), nrandom=rnd.nrandom, requests=rnd.requests)]
+    raise RuntimeError("unknown op " + k)
+
+
+def run_history(c):
+    gens = {}
+    res = []
+    for op in c["ops"]:
+        try:
+            res.append(run_op(op, gens))
+        except Exception as e:         # noqa
+            res.append(["other", type(e).__name__])
+    return ["ok", res]
+
+
 def run_case(c):
     fn = c["fn"]
+    if fn == "history":
+        return run_history(c)
     try:
         if fn == "mesh_len":
             r = geometry.shortest_mesh_path_length(t3(c["s"]), t3(c["d"]))
